@@ -23,12 +23,14 @@ CFG = {
     "level_text": "Proved for all uint16 constraints, contents and sizes: newSurface_len, writeCell_exact (inside: exactly cell "
                   "row*W+col as a natural number changes; outside: nothing, never a panic), size_le_max for every built-in widget and "
                   "nesting (only the documented bounded-constraint panic of Center/Button remains), center_fits (child inside, margins "
-                  "within one), render_clip, render_last_wins, paint_structure (own buffer, then children by z in child windows at "
-                  "parent origin + offset). Witness/F39-F42 prove that the uint16 / non-strict variants (the code before the fixes) fail.",
+                  "within one), render_paints (the rendered screen equals the painter's algorithm of Spec.Surface: every surface at "
+                  "parent origin + offset, clipped to itself and its ancestors and the window, children after parents in z-order with "
+                  "ties in child order; root's own rectangle not clipping = finding F114), zorder_is_spec, render_clip, "
+                  "render_last_wins, paint_structure, child_window_clip. Witness/F39-F42 prove that the uint16 / non-strict variants (the code before the fixes) fail.",
     "level_note": "Tie: Gen/SurfaceFacts.lean regenerated each run gives the model its arithmetic (int vs uint16 length and index, >= vs > "
                   "guards); src_arith_exact / src_guards_strict / facts_surface fail to compile when the source goes back. Correspondence on "
-                  "the real widgets and a real Vaxis. Only validated by correspondence + oracle: equality of the painted screen with the "
-                  "painter's-algorithm spec (render_paints_full is stated, not proved); widget contents placement is outside C14.",
+                  "the real widgets and a real Vaxis. Only validated by correspondence: that the Lean transcription of the Draw loops and of render "
+                  "equals the Go code; widget content placement (which grapheme where) is compared model vs code but is outside C14.",
     "technique": "Lean 4 proof (UInt16 arithmetic, structural/mutual induction) + extractor + differential correspondence",
     "timeout": 1200,
 }
